@@ -668,10 +668,15 @@ func argOrder(m dsl.Matcher) {
 //doc:before  strings.Join([]string{x, y}, "_")
 //doc:after   x + "_" + y
 func stringConcatSimplify(m dsl.Matcher) {
-	m.Match(`strings.Join([]string{$x, $y}, "")`).Suggest(`$x + $y`)
-	m.Match(`strings.Join([]string{$x, $y, $z}, "")`).Suggest(`$x + $y + $z`)
+	// Elements written as `index: value` are not operands.
+	m.Match(`strings.Join([]string{$x, $y}, "")`).
+		Where(!m["x"].Node.Is(`KeyValueExpr`) && !m["y"].Node.Is(`KeyValueExpr`)).
+		Suggest(`$x + $y`)
+	m.Match(`strings.Join([]string{$x, $y, $z}, "")`).
+		Where(!m["x"].Node.Is(`KeyValueExpr`) && !m["y"].Node.Is(`KeyValueExpr`) && !m["z"].Node.Is(`KeyValueExpr`)).
+		Suggest(`$x + $y + $z`)
 	m.Match(`strings.Join([]string{$x, $y}, $glue)`).
-		Where(m["glue"].Pure || m["y"].Pure).
+		Where((m["glue"].Pure || m["y"].Pure) && !m["x"].Node.Is(`KeyValueExpr`) && !m["y"].Node.Is(`KeyValueExpr`)).
 		Suggest(`$x + $glue + $y`)
 }
 
